@@ -19,7 +19,10 @@ import (
 	"github.com/cockroachdb/pebble/sstable/colblk"
 	"github.com/cockroachdb/pebble/sstable/tablefilters/binaryfuse"
 	"github.com/cockroachdb/pebble/sstable/tablefilters/bloom"
+	"github.com/cockroachdb/pebble/valsep"
+	"github.com/cockroachdb/pebble/objstorage"
 	"github.com/cockroachdb/pebble/vfs"
+	"github.com/cockroachdb/pebble/wal"
 )
 
 // ---------------------------------------------------------------- options
@@ -296,6 +299,14 @@ type Runner struct {
 	ckptN int
 	// OptHook may adjust the options before every Open.
 	OptHook func(*pebble.Options)
+	// WAL location: walCur is the current WAL directory ("" = the store
+	// directory), walOld the directories used earlier in this history (they are
+	// listed in Options.WALRecoveryDirs on every later Open, as the option's
+	// documentation requires); walInit says the fields are initialized.
+	walCur  string
+	walOld  []string
+	walInit bool
+
 	// fsHook, if set, is called (on the goroutine performing the operation)
 	// before the DB creates a directory or file or links a file. Only set and
 	// cleared by the foreground while no background work can race with it being
@@ -535,8 +546,63 @@ func (h *hookFS) Link(oldname, newname string) error {
 	return h.FS.Link(oldname, newname)
 }
 
+// walCfg is the WAL location configuration at one point of the history.
+type walCfg struct {
+	cur string
+	old []string
+}
+
+func (r *Runner) walConfig() walCfg {
+	if !r.walInit {
+		r.walInit = true
+		if r.Plan.Opt.WALDir {
+			r.walCur = "walz"
+		}
+	}
+	return walCfg{cur: r.walCur, old: append([]string(nil), r.walOld...)}
+}
+
+// apply sets WALDir / WALRecoveryDirs for a store in storeDir on fs.
+func (w walCfg) apply(o *pebble.Options, storeDir string, fs vfs.FS) {
+	o.WALDir = w.cur
+	o.WALRecoveryDirs = nil
+	for _, d := range w.old {
+		if d == w.cur {
+			continue // the current location is scanned anyway (listing it twice is rejected)
+		}
+		name := d
+		if name == "" {
+			name = storeDir
+		}
+		o.WALRecoveryDirs = append(o.WALRecoveryDirs, wal.Dir{FS: fs, Dirname: name})
+	}
+}
+
+// walRelocate moves the WAL location for the next Open: back to the store
+// directory (toStore, when it is elsewhere) or to a fresh directory.
+func (r *Runner) walRelocate(toStore bool) {
+	c := r.walConfig()
+	seen := false
+	for _, d := range r.walOld {
+		if d == c.cur {
+			seen = true
+		}
+	}
+	if !seen {
+		r.walOld = append(r.walOld, c.cur)
+	}
+	if toStore && c.cur != "" {
+		r.walCur = ""
+	} else {
+		r.C["wal-relocations"]++
+		r.walCur = fmt.Sprintf("walr%d", r.C["wal-relocations"])
+	}
+	r.L["wal-relocated"] = true
+}
+
 func (r *Runner) Open() error {
 	r.Opts = BuildOptions(r.Plan.Opt, &hookFS{FS: r.FS, r: r}, r.Ev.Listener(), r.Log)
+	r.walConfig().apply(r.Opts, r.Dir, r.Opts.FS)
 	if r.OptHook != nil {
 		r.OptHook(r.Opts)
 	}
@@ -1234,6 +1300,60 @@ func (r *Runner) writeTable(ops []Op) (string, error) {
 	return path, nil
 }
 
+// writeTableBlobs writes a table of point sets whose values are separated into
+// an external blob file (valsep.SSTBlobWriter), for IngestAndExciseWithBlobs.
+func (r *Runner) writeTableBlobs(ops []Op) (pebble.LocalSST, error) {
+	r.extN++
+	if err := r.FS.MkdirAll("ext", 0o755); err != nil {
+		return pebble.LocalSST{}, err
+	}
+	path := fmt.Sprintf("ext/%06d.sst", r.extN)
+	var blobPaths []string
+	wo := valsep.SSTBlobWriterOptions{
+		SSTWriterOpts:          r.Opts.MakeWriterOptions(0, r.fmv().MaxTableFormat()),
+		ValueSeparationMinSize: 1,
+	}
+	wo.NewBlobFileFn = func() (objstorage.Writable, error) {
+		bp := fmt.Sprintf("ext/%06d-%d.blob", r.extN, len(blobPaths))
+		f, err := r.FS.Create(bp, vfs.WriteCategoryUnspecified)
+		if err != nil {
+			return nil, err
+		}
+		blobPaths = append(blobPaths, bp)
+		return objstorageprovider.NewFileWritable(f), nil
+	}
+	f, err := r.FS.Create(path, vfs.WriteCategoryUnspecified)
+	if err != nil {
+		return pebble.LocalSST{}, err
+	}
+	w := valsep.NewSSTBlobWriter(objstorageprovider.NewFileWritable(f), wo)
+	pts := append([]Op(nil), ops...)
+	sort.SliceStable(pts, func(i, j int) bool { return cmpKey(pts[i].A, pts[j].A) < 0 })
+	for _, o := range pts {
+		if err := w.Set([]byte(o.A), o.Value()); err != nil {
+			return pebble.LocalSST{}, fmt.Errorf("sst+blob writer %s: %v", o, err)
+		}
+	}
+	if err := w.Close(); err != nil {
+		return pebble.LocalSST{}, fmt.Errorf("sst+blob writer close: %v", err)
+	}
+	if len(blobPaths) > 0 {
+		r.C["ingested-tables-with-blob-files"]++
+	}
+	return pebble.LocalSST{Path: path, BlobPaths: blobPaths}, nil
+}
+
+func onlySets(tables [][]Op) bool {
+	for _, t := range tables {
+		for _, o := range t {
+			if o.K != "set" {
+				return false
+			}
+		}
+	}
+	return true
+}
+
 // WriteSST writes the ops (any order; they are sorted per key kind) as one
 // sstable suitable for DB.Ingest and syncs it.
 func WriteSST(fs vfs.FS, path string, wopts sstable.WriterOptions, ops []Op) error {
@@ -1463,6 +1583,11 @@ func (r *Runner) step(s Step) error {
 			return err
 		}
 		r.markDurable()
+		if s.Flag && !r.Plan.Opt.DisableWAL {
+			// reopen with the WAL somewhere else; the previous location becomes a
+			// recovery directory
+			r.walRelocate(s.N == 0)
+		}
 		if err := r.Open(); err != nil {
 			return err
 		}
@@ -1828,7 +1953,17 @@ func (r *Runner) stepIngest(ctx context.Context, s Step) (err error) {
 		return nil
 	}
 	var paths []string
+	var locals pebble.LocalSSTables
+	withBlobs := s.Blobs && r.fmv() >= pebble.FormatIngestBlobFiles && onlySets(tables)
 	for _, t := range tables {
+		if withBlobs {
+			l, err := r.writeTableBlobs(t)
+			if err != nil {
+				return err
+			}
+			locals = append(locals, l)
+			continue
+		}
 		p, err := r.writeTable(t)
 		if err != nil {
 			return err
@@ -1848,10 +1983,19 @@ func (r *Runner) stepIngest(ctx context.Context, s Step) (err error) {
 	defer r.abort()
 	wasDurable := r.Durable == len(r.Versions)-1
 	var race *efosRace
-	if excise {
+	switch {
+	case withBlobs:
+		var span pebble.KeyRange
+		if excise {
+			race = r.startEFOSRace(s)
+			span = pebble.KeyRange{Start: []byte(s.A), End: []byte(s.B)}
+		}
+		_, err = r.DB.IngestAndExciseWithBlobs(ctx, locals, nil, nil, span)
+		r.L["ingest-with-blobs"] = true
+	case excise:
 		race = r.startEFOSRace(s)
 		_, err = r.DB.IngestAndExcise(ctx, paths, nil, nil, pebble.KeyRange{Start: []byte(s.A), End: []byte(s.B)})
-	} else {
+	default:
 		err = r.DB.Ingest(ctx, paths)
 	}
 	if err != nil {
